@@ -201,12 +201,12 @@ def main() -> int:
         msgs: list[str] = []
         try:
             fsrcs = create_source_list(tg, fopt, FileSystemCache())
-            saved = tracer
             build.build(fsrcs, fopt, flush_errors=lambda f, m, s: msgs.extend(m), fscache=FileSystemCache())
             _, n_notes, _ = count_stats(msgs)
             res["full"] = {"out": "".join(m + "\n" for m in msgs), "status": 1 if msgs and n_notes < len(msgs) else 0}
         except CompileError as e:
-            res["full"] = {"out": "".join(m + "\n" for m in e.messages), "status": 2, "blocker": True}
+            allm = msgs + [m for m in e.messages if m not in msgs]    # streamed messages reach the callback first
+            res["full"] = {"out": "".join(m + "\n" for m in allm), "status": 2, "blocker": True}
         except BaseException as e:      # noqa
             if isinstance(e, KeyboardInterrupt):
                 raise
